@@ -97,10 +97,26 @@ def generic_shrink(mod, cfg, fail, is_known, budget=40):
                         new['axes'] = [[int(n3), int(a3[1])] for n3, a3 in zip(lens, new['axes'])]
                 tried += 1
                 try:
-                    f2 = mod.oracle_run(new)
+                    f2 = run_oracle(mod, new)
                 except Exception as e:
                     f2 = dict(error='%s: %s' % (type(e).__name__, e))
                 if f2 and ('error' in f2) == ('error' in cur_fail) and not is_known(new, f2):
                     cur, cur_fail, improved = new, f2, True
                     break
     return cur, cur_fail, tried
+
+
+def run_oracle(mod, cfg):
+    """the oracle of a property whose statement does not involve gradients is run with autograd recording on or off as the case says
+    (cfg['_nograd'], set by the driver for a pseudo-random half of the cases): a transform must not take a different path under no_grad"""
+    import torch
+    with torch.set_grad_enabled(not cfg.get('_nograd', 0)):
+        return mod.oracle_run(cfg)
+
+
+def fresh_import():
+    """forget the library's modules: the next import builds every module-level object (caches, tables, ...) anew - the state of a new process"""
+    import importlib, sys
+    for k in [k for k in sys.modules if k == 'pytorch_wavelets' or k.startswith('pytorch_wavelets.')]:
+        del sys.modules[k]
+    importlib.invalidate_caches()
